@@ -92,13 +92,20 @@ def stream_serialize_vlq(f: BinaryIO, i: int) -> None:
 def stream_deserialize_vlq(f: BinaryIO) -> int:
     """ """
     result = 0
+    bytes_read = 0
 
     while True:
         (b,) = struct.unpack(b"B", safe_read(f, 1))
+        bytes_read += 1
 
         result += (b % 128)
 
         if b < 128:
+            # accept only the encoding that stream_serialize_vlq produces for this value: each value must have a single
+            # serialized form, because hashes (ids) are calculated over serialized forms.
+            if bytes_read != (result.bit_length() // 7) + 1:
+                raise DeserializationError("Non-canonical VLQ encoding")
+
             return result
 
         result *= 128
